@@ -95,6 +95,53 @@ def sweep_packet(base, f, v):
     return q
 
 
+# user-defined subclasses: overriding nothing; with a __dict__, with extra slots, with an extra attribute set in
+# their own __init__, one level deeper
+class SubSDP(SDPPacket):
+    pass
+
+
+class SubSDPSlots(SDPPacket):
+    __slots__ = ["note"]
+
+
+class SubSCP(SCPPacket):
+    pass
+
+
+class SubSCPSlots(SCPPacket):
+    __slots__ = ["note", "retries"]
+
+
+class SubSCPInit(SCPPacket):
+    def __init__(self, *args, **kwargs):
+        super(SubSCPInit, self).__init__(*args, **kwargs)
+        self.note = "application data"
+
+
+class SubSubSCP(SubSCP):
+    pass
+
+
+SUBS = {c.__name__: c for c in (SubSDP, SubSDPSlots, SubSCP, SubSCPSlots, SubSCPInit, SubSubSCP)}
+
+
+def sub_case(c):
+    """["enc_sub", class name, packet, n_args] / ["dec_sub", class name, bytes, n_args]: as enc_* / dec_* on an
+    instance of a user-defined subclass (decoding through the subclass's inherited from_bytestring)"""
+    cls = SUBS[c[1]]
+    scp = issubclass(cls, SCPPacket)
+    show = show_scp if scp else show_sdp
+    n = [] if not scp or c[3] is None else [c[3]]
+    if c[0] == "dec_sub":
+        return dec(cls, show, c[2], *n)
+    q = conv(c[2])
+    names = H + ["data"] + (S if scp else [])
+    pkt = cls(**dict(zip(names, q[:10] + [bytes(q[10])] + (q[11:16] if scp else []))))
+    r = enc(pkt)
+    return r + [dec(cls, show, r[1], *n)] if r[0] == "ok" else r
+
+
 def hist_enc(c):
     """["hist_enc", "sdp"|"scp", packet, mutable payload?, ops]: ONE packet object through
     ["enc", n_args] (-> like enc_sdp / enc_scp) | ["set", field index, value, mutable?] (attribute
@@ -233,6 +280,8 @@ def run_case(c):
     k = c[0]
     if k == "threads":
         return threads_case(c)
+    if k in ("enc_sub", "dec_sub"):
+        return sub_case(c)
     if k == "hist_enc":
         return hist_enc(c)
     if k == "hist_dec":
